@@ -442,5 +442,6 @@ theorem toSp_responseOf {d : Defaults} {cfg : Idp.Cfg} {a : Args W} {nid : NameI
   simp only [toSp, responseOf, assertionOf, toSpAssertion, authnOut_class ha hc, Scoped.response, Scoped.assertion, scopedOf,
     List.map_cons, List.map_nil]
   simp [sigState_ite, hdest]
+  constructor <;> (split <;> simp_all)
 
 end C09P
